@@ -356,6 +356,15 @@ def compactRead (K : Keys) (sk : Nat → Nat) (w : List Nat × List Nat × List 
   | some e => some e
   | none => sortedUnique sk w.2.2
 
+/-- the `kern_ids` vector AS IT IS ON THE WIRE: the short-id values themselves (`sk k`), sorted —
+what `compactWire` keeps as kernel codes.  With two kernels of one block colliding under the nonce
+(`sk k₁ = sk k₂`) the vector carries the value twice. -/
+def compactWireIds (K : Keys) (sk : Nat → Nat) (nonce : Nat) (b : Block) : List Nat :=
+  (sortBy sk (compact K nonce b).kernIds).map sk
+
+/-- the reader's `verify_sorted_and_unique` on the short-id values -/
+def compactReadIds (ids : List Nat) : Option VErr := sortedUnique id ids
+
 /-! ## selecting the transactions a compact block is hydrated from (`pool/src/pool.rs`)
 
 `servers/src/common/adapters.rs: compact_block_received` calls
